@@ -2,6 +2,7 @@
 classify (property violated on the implementation vs. mere divergence from the model), shrink.
 """
 import concurrent.futures as cf
+import subprocess
 import hashlib
 import os
 import collections
@@ -11,12 +12,14 @@ from . import core
 # ------------------------------------------------------------------ projections
 # A projection keeps, from the dump after a step, the lines the property talks about and
 # canonicalises what the property leaves free (order of neighbour lists / of edges()).
-def _canon_line(l, sort_lists):
+def _canon_line(l, sort_lists, strip_scans=False):
     if not sort_lists:
         return l
     if l.startswith("N "):
         head, _, rest = l.partition(": ")
         return head + ": " + " ".join(sorted(rest.split(), key=lambda x: (len(x), x)))
+    if l.startswith("P ") and strip_scans and "| scans: " in l:
+        return l.split("| scans: ")[0]
     if l.startswith("E pre: "):
         try:
             pre, rest = l[len("E pre: "):].split(" | post: ")
@@ -27,12 +30,35 @@ def _canon_line(l, sort_lists):
     return l
 
 
-def make_projection(prefixes, sort_lists=True):
+def make_projection(prefixes, sort_lists=True, strip_scans=False):
     prefixes = tuple(prefixes)
 
     def proj(step_out):
-        return [_canon_line(l, sort_lists) for l in step_out if l.startswith(prefixes)]
+        return [_canon_line(l, sort_lists, strip_scans) for l in step_out if l.startswith(prefixes)]
     return proj
+
+
+def c19_projection(step_out):
+    """C19 constrains only the number of neighbourhood scans: <= V (bfs), <= V+E (allpred),
+    <= V+E+1 (dijkstra).  The P line carries `scans: …` and `VE: V E`."""
+    out = []
+    for l in step_out:
+        if l.startswith("R "):
+            out.append(l.split(" ", 2)[1] if l.startswith("R !") else "R ok")
+        elif l.startswith("P ") and "| VE: " in l and "| scans: " in l:
+            try:
+                v, e = map(int, l.split("| VE: ")[1].split())
+                sc = l.split("| scans: ")[1].split(" |")[0].split()
+                if "preds:" in l:
+                    kind, count, bound = "allpred", len(sc), v + e
+                elif " pred: " in l and len(sc) == 1 and "dist:" in l and "inf" in l or ("pops" in l):
+                    kind, count, bound = "dijkstra", int(sc[0]), v + e + 1
+                else:
+                    kind, count, bound = "bfs", len(sc), v
+                out.append(f"{kind} scans_within_bound={count <= bound}")
+            except (ValueError, IndexError):
+                out.append(l)
+    return out
 
 
 ALL_PREFIXES = ("R", "D", "N", "H", "E", "V", "L", "O", "M", "G", "X", "W", "P", "T", "F", "bad-op")
@@ -62,7 +88,12 @@ def compare_history(impl_lines, model_lines, proj):
 def run_one(ops, harness, proj, tag="one"):
     """run a single history; returns (mismatch-or-None, result dict)"""
     text = "\n".join(ops) + "\nreset\n"
-    r = core.run_pair(text, harness, tag=tag, harness_env={"BGH_FLUSH": "1"})
+    try:
+        r = core.run_pair(text, harness, tag=tag, harness_env={"BGH_FLUSH": "1"}, timeout=ONE_TIMEOUT)
+    except subprocess.TimeoutExpired:
+        m = dict(kind="violation", step=-1, op="<timeout>", impl=[f"<no result within {ONE_TIMEOUT}s: the call does not terminate in reasonable time>"],
+                 model=[], pimpl=[], pmodel=[], impl_rc=-9, impl_err="timeout")
+        return m, dict(impl="", model="", impl_rc=-9, model_rc=0, impl_err="timeout", model_err="")
     hi = core.split_histories(r["impl"])
     hm = core.split_histories(r["model"])
     mi = hi[0] if hi else []
@@ -184,10 +215,17 @@ def _account(stats, meta, ops, model_lines):
         stats.samples.append(ops[:40])
 
 
+CHUNK_TIMEOUT = 600
+ONE_TIMEOUT = 60
+
+
 def _run_chunk(args):
     idx, hists, harness = args
     text = "".join("\n".join(ops) + "\nreset\n" for _, ops in hists)
-    r = core.run_pair(text, harness, tag=f"chunk{idx}")
+    try:
+        r = core.run_pair(text, harness, tag=f"chunk{idx}", timeout=CHUNK_TIMEOUT)
+    except subprocess.TimeoutExpired:
+        r = dict(impl="", model="", impl_rc=-9, model_rc=-9, impl_err="timeout", model_err="timeout")
     return idx, r
 
 
@@ -217,9 +255,12 @@ def run_histories(hists, harness, proj, stats, chunk=300, max_fail=4, workers=No
                 _account(stats, meta, ops, mm)
                 if k < len(hi) and not (crashed and k == len(hi) - 1 and len(hi) <= len(c)):
                     m = compare_history(hi[k], mm, proj)
-                    if m is not None and len(failures) < max_fail:
-                        failures.append(dict(ops=ops, meta=meta, mismatch=m))
-                elif len(failures) < max_fail:
+                    if m is not None:
+                        nv = sum(1 for f in failures if f["mismatch"]["kind"] == "violation")
+                        nd = len(failures) - nv
+                        if (m["kind"] == "violation" and nv < max_fail) or (m["kind"] != "violation" and nd < 2):
+                            failures.append(dict(ops=ops, meta=meta, mismatch=m))
+                elif len(failures) < max_fail + 2:
                     # implementation died in or before this history: re-run it alone
                     m, _ = run_one(ops, harness, proj, tag=f"rerun{idx}")
                     if m is not None:
